@@ -23,7 +23,7 @@ func runC10(c *Ctx) {
 	for i := 0; i < n; i++ {
 		r := rng.Fork()
 		cid := fmt.Sprintf("c10-%d", i)
-		o := ATGenOpts{NullableVals: r.Chance(40)}
+		o := ATGenOpts{NullableVals: r.Chance(40), Upserts: r.Chance(25)}
 		cs := genATCase(r, w, cid, o)
 		if len(cs.Rows) < 2 {
 			cs.Rows = genRows(r, cs.Schema, 3)
